@@ -75,4 +75,55 @@ CHECKS = {
         "assumptions": ["keys are alphanumeric (help text); values are JSON for the json variants (documented requirement) and arbitrary non-empty bytes otherwise",
                         "an interval that contains a key with an unresolved merge conflict at the queried version may be refused; DeleteRange over such an interval is not exercised"],
     },
+    "C09": {
+        "pkg": "c09",
+        "level": "exploration",
+        "tests": [
+            T("TestC09Codec", (900, 4), (8000, 16)),
+            T("TestC09Views", (1000, 4), (8000, 16)),
+        ],
+        "fuzz": [{"name": "FuzzC09Codec", "time": "90s"}],
+        "required_classes": ["codec/bits=0", "codec/bits=1", "codec/bits=2", "codec/bits=3", "codec/bits=4", "codec/bits=5", "codec/bits=6", "codec/bits=7", "codec/bits=8", "codec/bits=9",
+                             "codec/k>=257", "codec/shape=cubic", "codec/shape=noncubic", "codec/size>=64^3", "codec/solid", "codec/only-label-0", "codec/two-labels",
+                             "codec/labels>=2^32", "codec/label=2^64-1", "codec/has-label-0", "codec/subvolume", "codec/subvolume/negative-bcoord",
+                             "views/negative-bcoord", "views/MakeSolidBlock", "views/with-prev", "views/aliased-table=replace", "views/aliased-table=merge", "views/adjacent-blocks", "views/multi-label-selection", "views/k>=257"],
+        "rule": "rapid-generated label arrays: block size (8gx,8gy,8gz) with g in 2..4 mostly, up to 8 and elongated up to 1024 voxels on one axis occasionally; content built per 8x8x8 sub-block (model.BlockSpec.Build, a pure function of the drawn spec): each sub-block takes k distinct labels, k from a drawn list over {1,2,3,4,5,7,8,9,15,16,17,31,33,63,65,127,129,255,257,511,512} / uniform 1..512 / 1..12, labels are a window of a block-level table made of selected boundary values {0,1,2^32-1,2^32,2^32+1,2^53-1,2^63,2^64-1} followed by base,base+1,.. with base in {1,2,1000,2^32-3,2^63-2,2^64-40,2^64-600}, voxels filled randomly or in runs with every one of the k labels forced to appear; special kinds: one label, label 0 only, two labels split inside one sub-block, some sub-blocks solid. Codec cases add a block-aligned sub-volume of 1..8 blocks at a (possibly negative) block coordinate and convert every block of it. View cases take a row of 1..3 blocks along X (adjacent or with a gap, possibly negative block coordinate, solid ones via MakeSolidBlock), all voxels as query points (sampled for >32^3) plus drawn points, 1..3 selected labels (present / absent) for WriteRLEs and WriteBinaryBlocks->ReceiveBinaryBlocks, an optional previous block for CalcNumLabels, and optionally duplicate / dead label-table entries made with ReplaceLabel / MergeLabels on the first block. Non-trivial: at least one sub-block with >= 3 distinct labels. Distinct = hash of the case value.",
+        "assumptions": ["sub-volumes handed to SubvolumeToBlock are block aligned (labelmap.PutLabels rejects anything else)",
+                        "GetPointLabels is only asserted for points inside the block: its doc comment promises 0 for outside points, the code returns other labels, but no caller passes such points (see props/c09/FINDINGS.md, observation O1)",
+                        "label 0 is never a selected label of a sparse output (it is the background); bounds are not passed to WriteRLEs / WriteBinaryBlocks",
+                        "the order of the block-level label table is not part of the format: blocks with duplicate table entries are built on a block whose table was reordered deterministically and re-parsed with UnmarshalBinary"],
+    },
+    "C10": {
+        "pkg": "c10",
+        "level": "exploration",
+        "tests": [
+            T("TestC10Merge", (400, 2), (6000, 16)),
+            T("TestC10Replace", (400, 2), (5500, 16)),
+            T("TestC10Split", (400, 2), (7000, 16)),
+            T("TestC10Downres", (100, 4), (1000, 16)),
+            T("TestC10Sequences", (400, 2), (7000, 16)),
+        ],
+        "required_classes": ["op=merge/target-present", "op=merge/target-absent", "op=merge/merged-present", "op=merge/merged-absent", "op=merge/merged-everything", "op=merge/on-merged-block",
+                             "op=replace/source-zero", "op=replace/dest-zero", "op=replace/identity", "op=replace/dest-present", "op=replace/chain-a->b,b->c", "op=replacemap/chain-a->b,b->c", "op=replacemap/source-zero", "op=replacemap/dest-zero",
+                             "negative-bcoord", "op=split/runs=empty", "op=split/runs=whole", "op=split/runs=single", "op=split/runs=follow", "op=split/run-crosses-sub-block", "op=split/runs-partly-outside-target", "op=split/target-absent", "op=split/whole-target-split",
+                             "op=downres/absent+solid+mixed", "op=downres/receiver=existing", "op=downres/receiver=fresh", "op=downres/receiver=solid0", "op=downres/vote-tie", "op=downres/absent=0", "op=downreslabels/size-not-multiple-of-8",
+                             "seq/len=2", "seq/len=4", "seq/merge->replace", "seq/replace->merge", "seq/merge->split"],
+        "rule": "rapid-generated blocks as in C09 (label table order optionally fixed by a drawn seed so that table-position-dependent behaviour is reproducible). Merge: 1..3 MergeOps in sequence, target present/absent, merged labels present/absent/mixed/everything, later merges into or out of the earlier target. Replace: 1..3 steps of ReplaceLabel / ReplaceLabels with sources and destinations from {present, absent, 0}, chains a->b then b->c across steps and inside one mapping, swaps, identity. Split: one block at a (possibly negative) block coordinate and a run set in DVID voxel space (empty, whole block, single voxel, explicit runs, random runs, runs following a label's voxels but cut / extended over neighbours) given to Split, SplitSupervoxel (with and without an entry for the block), SplitSupervoxels, SplitStats and DoSplitWithStats (SVSplitMap partly pre-populated). Downres: eight octants each absent / solid / mixed (patterns: independent, only solid-0 and absent, same solid label, all mixed, mostly absent) sharing a label table, receiver fresh / MakeSolidBlock(0) / an existing block; Block.Downres and DownresSlow vs the documented vote (most frequent non-zero label, ties to the smaller, none -> 0) written into the octant's portion, DownresLabels on an even-sized crop, DownresFast vs DownresSlow under its own signatures. Sequences: 2..4 operations of {merge, replace, split, splitsv, splitsvs} applied to one block, model compared after every step, CalcNumLabels(prev) compared with true count deltas. Non-trivial: the operation changes voxels in >= 2 sub-blocks of a block with >= 3 labels. Distinct = hash of the case value.",
+        "assumptions": ["merge targets and merged labels are non-zero and the target is not among the merged labels (MergeTuple.Op rejects 0; MergeStart rejects chains)",
+                        "split run sets are non-overlapping and lie inside the block (the datatypes partition a sparse volume per block)",
+                        "new labels of splits are fresh (>= 2^40) except for a marked class where Split's NewLabel is a label already in the block",
+                        "Downres is called with at least one octant present (labelmap only down-samples changed blocks)",
+                        "splitFast is unexported and unreachable; it is not compared with splitSlow",
+                        "ReplaceLabels' 'replaced' flag is only compared on blocks straight from MakeBlock"],
+    },
+    "C07": {
+        "pkg": "c07",
+        "level": "exploration",
+        "tests": [
+            T("TestC07History", (150, 4), (4000, 16)),
+        ],
+        "required_classes": ["merge/open-parent", "merge/unknown-parent", "merge/repeated-parent", "merge/foreign-parent", "duplicate-caller-uuid", "tag-equal-to-existing-uuid", "branch-name-reuse", "repo-delete", "malformed-body"],
+        "rule": "rapid-generated request histories (<=40) over new repo / commit / newversion / branch / tag / merge / resolve / note / log / instance create / rename / delete / repo delete in up to 3 repos, each operand drawn from kinds (uuid: none|fresh|existing here|existing elsewhere|malformed|empty; address: full|prefix|root:branch|unknown|malformed; branch names fresh|existing|master|empty|odd; merge parents committed|open|unknown|repeated|foreign; bodies valid|missing fields|wrong types|empty|truncated). After every request the whole metadata (repos/info + identifier maps) is snapshotted: invariants checked, a rejected request must leave it identical, an accepted DAG-growing request must add exactly one node with the requested parents. Non-trivial: >=1 rejected request and >=2 accepted DAG-growing requests. Distinct = hash of the op list.",
+        "assumptions": ["status codes are not relied on beyond 2xx vs not-2xx", "linearity is asserted for branch names created through the branch endpoint (master can legitimately fork through merges, which are filed under the default branch)"],
+    },
 }
